@@ -676,6 +676,14 @@ def main(tier):
         rep.violation({"what": "interpreter and generated Python class disagree (or generation fails) on a "
                                "builder program", "case": c2, "program": ptxt, "oracle": o2})
 
+    # oracle-only stream outside the model's universe: floating-point time stepping up to t_end, built-ins
+    # called positionally and by keyword
+    from harness import c01_extras
+    bad_extras, n_extras = c01_extras.check_all()
+    for name, d in bad_extras[:3]:
+        rep.violation({"what": "interpreter and generated Python class disagree on a hand-written program of the "
+                               "floating-point / built-in stream (harness/c01_extras.py)", "extra": name, "oracle": d})
+
     mism, n_eval, errors = [], 0, []
     if os.path.exists(os.path.join(common.COQ, "model", "StepperCheck.vo")) and \
             os.path.exists(os.path.join(common.COQ, "gen", "GenLang.vo")):
@@ -703,6 +711,7 @@ def main(tier):
              "switch_phase, raise_) run by both real backends under max_steps or t_end; non-trivial = at least 4 "
              "builder calls; distinct by program",
         traces_validated_against_impl=n_eval, model_impl_disagreements=len(mism),
+        float_and_builtin_programs=n_extras,
         input_distribution=stats,
         samples=[{"program": str(make_code(cases[i])), "mode": cases[i]["mode"], "limit": cases[i]["limit"]}
                  for i in (len(cases) // 2,)],
@@ -715,6 +724,12 @@ def main(tier):
 
 def replay(path):
     r = json.load(open(path))
+    if "extra" in r:
+        from harness import c01_extras
+        ex = [e for e in c01_extras.extras() if e[0] == r["extra"]]
+        d = c01_extras.first_difference(*c01_extras.run_extra(ex[0])) if ex else "no such program"
+        print(json.dumps({"extra": r["extra"], "difference": d}, indent=1, default=str))
+        return 1 if d is not None else 0
     if "case" not in r:
         print("replay names a broken obligation, no input: %s" % r.get("broken"))
         return 1
